@@ -426,7 +426,8 @@ def fresh_replay(prop, path, sig):
     cmd = [sys.executable, "-B", os.path.join(VERIF, "bin", "check"), prop,
            "--replay", path, "--expect", sig]
     try:
-        p = subprocess.run(cmd, capture_output=True, text=True, timeout=600)
+        p = subprocess.run(cmd, capture_output=True, text=True, timeout=600,
+                           errors="backslashreplace")
     except subprocess.TimeoutExpired:
         return False, "timeout"
     return p.returncode == 1 and "REPRODUCED" in p.stdout, p.stdout[-2000:] + \
